@@ -1,5 +1,6 @@
 import Rbp.Model.VarInt
 import Rbp.Proofs.Record
+import Rbp.Proofs.Layout
 /-!
 # C03 — a block is read from the file and offset its index record names, wherever it is
 -/
@@ -32,6 +33,37 @@ theorem readAt_block (coin : Coin) (size : Nat) (hs : size < 256 ^ 4) (b : W.Blo
 theorem layout_independent_read (coin : Coin) (key : Option W.Bytes) (f g : BlkFile) (off : Nat)
     (h : bytesFrom f (off - 4) = bytesFrom g (off - 4)) : readAt coin key f off = readAt coin key g off :=
   readAt_depends_on_suffix coin key f g off h
+
+/-- **whole run, same index.**  Two data directories with the same index key/value pairs in which, for every record of the
+    index, "the blk file with the record's number, read at the record's offset" yields the same result, produce identical
+    runs — every observable including the Opening/Closing trace.  Bytes before `offset-4`, garbage and unindexed blocks
+    between blocks, holes, blk files and other directory entries named by no record, and the zero-padding of file names (only
+    the parsed number matters) cannot be observed. -/
+theorem same_index_same_reads (o : Opts) (k₁ k₂ : Option W.Bytes) (kvs : List (W.Bytes × W.Bytes)) (fs₁ fs₂ : List BlkFile)
+    (hk₁ : k₁ ≠ some []) (hk₂ : k₂ ≠ some [])
+    (hn₁ : (fs₁.filterMap fun f => (parseBlkIndex f.name).map fun n => (n, f)) ≠ [])
+    (hn₂ : (fs₂.filterMap fun f => (parseBlkIndex f.name).map fun n => (n, f)) ≠ [])
+    (hf : ∀ coin ld, coinOf o.coin = some coin → loadIndex o kvs = .ok ld → ∀ ht r, lookup ld.trimmed ht = some r →
+      fetch coin k₁ (fs₁.filterMap fun f => (parseBlkIndex f.name).map fun n => (n, f)) r =
+      fetch coin k₂ (fs₂.filterMap fun f => (parseBlkIndex f.name).map fun n => (n, f)) r) :
+    run o k₁ kvs fs₁ = run o k₂ kvs fs₂ :=
+  run_same_reads o k₁ k₂ kvs fs₁ fs₂ hk₁ hk₂ hn₁ hn₂ hf
+
+/-- **whole run, any two physical layouts of one logical chain.**  Different index values (file numbers, offsets, VarInt
+    widths), different distribution and order of the blocks over blk files: if both indexes load, end at the same height and
+    present the same view at every height (same block hash; same result of reading the record's (file, offset)), the two
+    runs agree on exit status, error report, delivered heights and hashes, every output file and stdout — for every
+    callback, range and `--verify` setting.  (Only the Opening/Closing trace may differ: it is about the files.) -/
+theorem layout_independent_run (o : Opts) (k₁ k₂ : Option W.Bytes) (kvs₁ kvs₂ : List (W.Bytes × W.Bytes)) (fs₁ fs₂ : List BlkFile)
+    (coin : Coin) (ld₁ ld₂ : Loaded) (hc : coinOf o.coin = some coin)
+    (hl₁ : loadIndex o kvs₁ = .ok ld₁) (hl₂ : loadIndex o kvs₂ = .ok ld₂) (hmax : ld₁.maxH = ld₂.maxH)
+    (hk₁ : k₁ ≠ some []) (hk₂ : k₂ ≠ some [])
+    (hn₁ : (fs₁.filterMap fun f => (parseBlkIndex f.name).map fun n => (n, f)) ≠ [])
+    (hn₂ : (fs₂.filterMap fun f => (parseBlkIndex f.name).map fun n => (n, f)) ≠ [])
+    (hv : ∀ h, view coin k₁ (fs₁.filterMap fun f => (parseBlkIndex f.name).map fun n => (n, f)) ld₁.trimmed h =
+               view coin k₂ (fs₂.filterMap fun f => (parseBlkIndex f.name).map fun n => (n, f)) ld₂.trimmed h) :
+    (run o k₁ kvs₁ fs₁).visible = (run o k₂ kvs₂ fs₂).visible :=
+  run_layout_independent o k₁ k₂ kvs₁ kvs₂ fs₁ fs₂ coin ld₁ ld₂ hc hl₁ hl₂ hmax hk₁ hk₂ hn₁ hn₂ hv
 
 /-- keys that do not start with `b` never enter the table (`f`, `l`, `F`, `R`, … records are ignored) -/
 theorem foreign_keys_ignored (k v : W.Bytes) (b : UInt8) (rest : W.Bytes) (hk : k = b :: rest) (hb : b ≠ 0x62)
